@@ -25,7 +25,7 @@ def _line(obj):
 
 def exec_history(job):
     from cisco_acl import Wildcard, Address, AddressAg
-    events, obj = [], None
+    events, obj, holder = [], None, None
     cls = job.get("cls", "Wildcard")   # the same machine behind Address / AddressAg (wildcard view of the address)
     for i, s in enumerate(job["steps"]):
         e = dict(tid=job["tid"], i=i, act=s["act"], w=s.get("w", ZW), limit=s.get("limit", 0), exc="", line=ZW, ret=[])
@@ -40,8 +40,16 @@ def exec_history(job):
                     obj = Address(lex.wild_text(s["w"]), platform="ios", max_ncwb=s["limit"])
                 elif cls == "AddressAg":
                     obj = AddressAg(lex.wild_text(s["w"]), platform="nxos", max_ncwb=s["limit"])
+                elif cls == "Member":      # a member of a named address group given as text: it is held to the group address's limit
+                    holder = Address("object-group G", platform="ios", max_ncwb=s["limit"], items=[lex.wild_text(s["w"])])
+                    obj = holder.items[0]
                 else:
                     obj = Wildcard(lex.wild_text(s["w"]), max_ncwb=s["limit"])
+            elif s["act"] == "SetLine" and cls == "Member":
+                holder.items = [lex.wild_text(s["w"])]       # members replaced through the group address: built under its limit
+                obj = holder.items[0]
+            elif s["act"] == "SetLimit" and cls == "Member":
+                holder.max_ncwb = s["limit"]
             elif s["act"] == "SetLine":
                 obj.line = lex.wild_text(s["w"])
             elif s["act"] == "SetLimit":
@@ -121,7 +129,7 @@ def rand_wild(rng, k_nc, low):
 def random_histories(rng, n, tid0):
     jobs = []
     for t in range(n):
-        cls = rng.choice(["Wildcard", "Wildcard", "Wildcard", "Address", "Address", "AddressAg"])
+        cls = rng.choice(["Wildcard", "Wildcard", "Wildcard", "Address", "Address", "AddressAg", "Member"])
         limit = rng.choice([0, 1, 2, 3, 5, 8, 10, 16, 30])
         steps = []
         nset = rng.randint(1, 4)
